@@ -1019,20 +1019,75 @@ func muxOracle(ops []muxOp, reg map[string]int, ls [][]byte, qn string, t uint16
 	default: // DS with a registered proper ancestor: the result must be one of them
 		okAnc := false
 		closest := ""
+		nonRootAnc := 0
 		for i := len(ls); i >= 1; i-- {
 			if id, ok := reg[lowerASCII(showLabels(ls[i:]))]; ok {
 				if got == "some:"+Itoa(id) {
 					okAnc = true
 				}
 				closest = "some:" + Itoa(id)
+				if i < len(ls) {
+					nonRootAnc++
+				}
 			}
 		}
-		if !okAnc {
+		_, rootReg := reg["."]
+		_, selfReg := reg[lowerASCII(showLabels(ls))]
+		switch {
+		case !okAnc:
 			Viol("C14/Mux/ds-parent", "DS query not routed to a registered proper ancestor: got "+got, in)
-		} else if got != closest {
-			// observation (not a violation, see docs/C14.md): with three or more
-			// nested registered zones the DS query goes to the top-most one
-			stat["mux_ds_topmost_not_closest_parent_observed"]++
+		case got == closest:
+		case selfReg && !rootReg && nonRootAnc >= 2 && len(ls) > 0:
+			// known finding: the name is itself a registered zone apex, two or more
+			// proper ancestors are registered (no root pattern) and the DS query goes
+			// to the top-most of them instead of the enclosing parent zone
+			Viol("C14/Mux/ds-not-closest-parent", "DS query for a registered zone apex routed to "+got+", the enclosing parent zone is "+closest, in)
+		default:
+			// a registered ancestor other than the closest one, outside the class
+			// above (root pattern registered, or the name itself is not a registered
+			// zone): counted, not reported (docs/C14.md)
+			stat["mux_ds_other_ancestor_observed"]++
+		}
+	}
+}
+
+// runMuxDirected: fixed DS scenarios (the random rounds reach them only by chance).
+func runMuxDirected() {
+	lab := func(ss ...string) [][]byte {
+		var o [][]byte
+		for _, s := range ss {
+			o = append(o, []byte(s))
+		}
+		return o
+	}
+	h := func(p string, id int) muxOp { return muxOp{true, p, id} }
+	for _, c := range []struct {
+		ops []muxOp
+		ls  [][]byte
+	}{
+		{[]muxOp{h("a.example.org.", 1), h("example.org.", 2), h("org.", 3)}, lab("a", "example", "org")}, // three nested zones
+		{[]muxOp{h("a.example.org.", 1), h("example.org.", 2)}, lab("a", "example", "org")},               // exactly one ancestor
+		{[]muxOp{h("a.example.org.", 1)}, lab("a", "example", "org")},                                     // child only
+		{[]muxOp{h("example.org.", 2), h("org.", 3)}, lab("a", "example", "org")},                         // name itself not a zone
+		{[]muxOp{h("a.example.org.", 1), h("example.org.", 2), h(".", 9)}, lab("a", "example", "org")},    // root pattern registered
+		{[]muxOp{h("b.a.example.org.", 1), h("a.example.org.", 2), h("example.org.", 3), h("org.", 4)}, lab("B", "a", "Example", "org")},
+	} {
+		mux, reg, ok := buildMux(c.ops)
+		if !ok {
+			continue
+		}
+		qn := showLabels(c.ls)
+		for _, t := range []uint16{dns.TypeDS, dns.TypeA} {
+			got := Protect(func() string {
+				hd := dns.VerifMuxMatch(mux, qn, t)
+				if hd == nil {
+					return "none"
+				}
+				return "some:" + Itoa(int(hd.(hid)))
+			})
+			Emit("mux", []string{opsString(c.ops), Hs(qn), Itoa(int(t))}, got)
+			stat["mux_cases"]++
+			muxOracle(c.ops, reg, c.ls, qn, t, got)
 		}
 	}
 }
@@ -1343,6 +1398,7 @@ func runLoopback(r *Rng) {
 func runC14(r *Rng, tier string, n int) {
 	runAccept(r)
 	runServe(r, tier)
+	runMuxDirected()
 	runMux(r, tier)
 	runSkel(r, tier)
 	runConcurrent(r, tier)
